@@ -592,4 +592,15 @@ theorem commitParallelWith_eq_commit {n : Nat} (hn : 4 ≤ n) {t : Trie} {S : KM
   rw [hmap]
   exact rseq
 
+/-! ### the order a batch is committed in -/
+
+/-- `key.cmp(a, b) < 0` is the strict bitwise order: `a` before `b`, i.e. not (`b` ≤ `a`) in the order `sortOps` sorts by -/
+theorem keyCmp_neg_iff : ∀ (a b : Key), a.length = b.length → (decide (keyCmp a b < 0)) = !keyLe b a
+  | [], [], _ => by simp [keyCmp, keyLe]
+  | [], _ :: _, h => by simp at h
+  | _ :: _, [], h => by simp at h
+  | a :: as, b :: bs, h => by
+    have ih := keyCmp_neg_iff as bs (by simpa using h)
+    cases a <;> cases b <;> simp [keyCmp, keyLe] <;> simpa using ih
+
 end Canopy.Smt
